@@ -61,7 +61,7 @@ def canon(b):
 
 def digest(b):
     c = canon(b)
-    return {"clen": len(c), "h": hashlib.sha256(c).hexdigest()[:16]}
+    return {"len": len(b), "clen": len(c), "h": hashlib.sha256(c).hexdigest()[:16]}
 
 
 def pad(data):
@@ -413,9 +413,13 @@ def c02(run, args):
                 seen.add(tuple(g["cls"]))
                 gen.append(g)
     run.cov["exhaustive"] = True
+    # TLC's printing order depends on its worker threads: ids and representatives must not
+    order = ["DOT", "CR", "LF", "NUL", "HI", "CH"]
+    canon_key = lambda g: (len(g["cls"]), [order.index(c) for c in g["cls"]])
+    gen = sorted(gen[:nenum], key=canon_key) + sorted(gen[nenum:], key=canon_key)
     items, enum_items = {}, []
     for i, g in enumerate(gen):
-        rng = random.Random("%d/c02/%d" % (run.seed, i))
+        rng = random.Random("%d/c02/%s" % (run.seed, "".join("DRLNHC"[order.index(c)] for c in g["cls"])))
         body = spell(g["cls"], rng)
         kind = "enum" if i < nenum else "sample"
         bid = "%s%d" % ("e" if i < nenum else "s", i)
